@@ -56,8 +56,9 @@ from vlib import env
 THEOREMS = [
     "pathStr_injective", "step_eq_spec", "export_exact", "export_whole_tree", "export_slash_only_empty",
     "export_members", "export_finals_nodup", "export_dirs_first", "subdir_is_subtree",
-    "subdir_single_file", "root_prefix", "root_prefix_under", "dir_ignores_root",
+    "subdir_single_file", "root_prefix", "root_prefix_under", "dir_eq_tar_rootless", "specialOf_mono",
     "zip_names_nodup_partial", "zip_lnk_collision_witness", "prefix_sibling_witness",
+    "zip_exec_dropped_witness", "zip_exec_kept",
 ]
 RULE = ("case = (generated revision tree, format, root, sub-directory selection, filtered?); trees are drawn from a "
         "namespace of unusual names; non-trivial = the selection exports >= 2 members; distinct by the canonical "
@@ -121,7 +122,13 @@ def gen_spec(rng):
         spec["ab"] = ("d", None, False) if rng.random() < 0.5 else ("f", b"sibling\n", True)
         if spec["ab"][0] == "d":
             spec["ab/in-ab"] = ("f", b"in ab\n", False)
-    if ".bzrignore" in spec and spec[".bzrignore"][0] == "f":
+    if rng.random() < 0.06 and "x" not in spec and "x.lnk" not in spec:
+        # the zip exporter stores the symlink `x` as a text member `x.lnk`
+        spec["x"] = ("l", "a", False)
+        spec["x.lnk"] = ("f", b"a file called x.lnk\n", False)
+    if ".bzrignore" in spec:
+        for k in [k for k in spec if k.startswith(".bzrignore/")]:
+            del spec[k]
         spec[".bzrignore"] = ("f", b"zz-never\n", False)
     return spec
 
@@ -315,15 +322,32 @@ def norm_name(n):
 
 # --------------------------------------------------------------------------
 
+_FAMILY_SEEN = {}
+
+
+def _violation(ctx, case, what, family=None):
+    """family-tagged (reported, awaiting triage) violations are recorded at most
+    3x per run so that they cannot crowd out a new one"""
+    if family is not None:
+        _FAMILY_SEEN[family] = _FAMILY_SEEN.get(family, 0) + 1
+        ctx.count("finding:" + family)
+        if _FAMILY_SEEN[family] > 3:
+            return
+    ctx.violation(case, what, family=family)
+
+
 def fmt_class(fmt):
     return "dir" if fmt == "dir" else "zip" if fmt == "zip" else "tar"
 
 
 def run_export(tree, fmt, dest, root, subdir):
     """-> ('ok', members) | ('raised', exception)"""
+    import warnings
     from breezy.export import export
     try:
-        export(tree, dest, fmt, root=root, subdir=subdir)
+        with warnings.catch_warnings():
+            warnings.simplefilter("ignore", UserWarning)   # zipfile: "Duplicate name" (reported by the oracle)
+            export(tree, dest, fmt, root=root, subdir=subdir)
     except Exception as e:   # noqa: BLE001 - classified by the caller
         return "raised", e
     if fmt == "dir":
@@ -372,12 +396,12 @@ def check_one(ctx, T, fmt, root, subdir, filtered, destname=None, oracle=True):
         ctx.count("raised:" + type(e).__name__)
         fam = None
         selected_kinds = {v[0][0] for v in exp.values()} | ({"l"} if any(n.endswith(".lnk") for n in exp) and cls == "zip" else set())
-        has_link = any(x["kind"] == "l" for x in ents)
+        has_link = any(v[0][0] == "l" for v in expected_members(ents, "tar", eff_root, subdir, None, False).values())
         if filtered and isinstance(e, NotImplementedError) and has_link and "get_symlink_target" in str(e):
             fam = "filters-symlink-notimplemented"
         if oracle and subdir != "/":
-            ctx.violation(case, "export raised %s: %s (selection has kinds %s)" % (type(e).__name__, str(e)[:120], sorted(selected_kinds)),
-                          family=fam)
+            _violation(ctx, case, "export raised %s: %s (selection has kinds %s)" % (type(e).__name__, str(e)[:120], sorted(selected_kinds)),
+                       family=fam)
         return None
     ms = res
     # ---- oracle ----------------------------------------------------------
@@ -387,7 +411,7 @@ def check_one(ctx, T, fmt, root, subdir, filtered, destname=None, oracle=True):
             got.setdefault(norm_name(n), []).append((k, c, x, t))
         for n in sorted(set(exp) | set(got)):
             e_, g_ = exp.get(n, []), got.get(n, [])
-            if e_ == g_:
+            if e_ == g_ and len(g_) <= 1:
                 continue
             fam = None
             what = None
@@ -395,8 +419,9 @@ def check_one(ctx, T, fmt, root, subdir, filtered, destname=None, oracle=True):
                 what = "member %r (%s) of the tree is missing from the export" % (n, e_[0][0])
             elif not e_:
                 what = "export contains %r which is not in the selected tree" % (n,)
-                first = n.split("/")[len([c for c in (eff_root or "").split("/") if c]) if cls != "dir" else 0:][:1]
-                if filtered and special is not None and not subdir and first and first[0].startswith(special):
+                # the member is a path special to the format (it would be selected if
+                # nothing were special) and the tree is the filtered view
+                if filtered and n in expected_members(ents, cls, eff_root, subdir, None, filtered):
                     fam = "filters-special-path-exported"
             elif len(e_) > 1 or len(g_) > 1:
                 what = "member name %r occurs %d times in the export (%d tree entries map to it)" % (n, len(g_), len(e_))
@@ -414,7 +439,7 @@ def check_one(ctx, T, fmt, root, subdir, filtered, destname=None, oracle=True):
                     what = "content of %r differs (%d bytes exported, %d expected)" % (n, len(gc), len(ec))
                 else:
                     what = "link target of %r is %r, the tree has %r" % (n, gt, et)
-            ctx.violation(case, what, family=fam)
+            _violation(ctx, case, what, family=fam)
             break
         # every directory member precedes its children (archives keep the order)
         if cls != "dir":
@@ -429,7 +454,7 @@ def check_one(ctx, T, fmt, root, subdir, filtered, destname=None, oracle=True):
                     seen.add("/".join(comps))
     # ---- model line --------------------------------------------------------
     line = "exp %s %s %s %s %s %s" % (
-        cls, "~" if special_impl is None else hx(special_impl), hx(FILTER_SUFFIX) if filtered else "~",
+        ("zipx" if _ZIP_KEEPS_EXEC[0] else "zip") if cls == "zip" else cls, "~" if special_impl is None else hx(special_impl), hx(FILTER_SUFFIX) if filtered else "~",
         hx(eff_root), "~" if subdir is None else hx(subdir), T["enc"])
     if cls == "dir":
         impl = show_members(ms)
@@ -474,6 +499,31 @@ def subdir_choices(ents, rng):
             if out[p] == "dir":
                 out[p] = "dir+string-prefix-of-sibling"
     return out
+
+
+_ZIP_KEEPS_EXEC = [None]
+
+
+def probe_zip_exec(ctx):
+    """which zip exporter is under test: the one that records every file as
+    0644 (as found; the oracle reports each lost bit) or one that records the
+    executable bit?  Selects the model variant only."""
+    from breezy.export import export
+    wt = env.make_tree("2a")
+    with open(os.path.join(wt.basedir, "p"), "wb") as f:
+        f.write(b"#!/bin/sh\n")
+    os.chmod(os.path.join(wt.basedir, "p"), 0o755)
+    wt.smart_add([wt.basedir])
+    wt.commit("probe")
+    d = env.fresh_dir("c42p")
+    dest = os.path.join(d, "p.zip")
+    export(wt.branch.basis_tree(), dest, "zip", root="")
+    with open(dest, "rb") as f:
+        ms = read_zip(f.read())
+    shutil.rmtree(d, ignore_errors=True)
+    shutil.rmtree(wt.basedir, ignore_errors=True)
+    _ZIP_KEEPS_EXEC[0] = bool(ms and ms[0][3])
+    ctx.extra["zip_exporter_variant"] = "records-exec-bit" if _ZIP_KEEPS_EXEC[0] else "always-0644"
 
 
 ROOTS = [None, "", "r", "r/s", "r/", "ünï r", "R" * 110]
@@ -552,6 +602,8 @@ def combos_for(ctx, T, n):
 
 def run(ctx, ntrees=None, per_tree=None):
     os.umask(0o022)
+    _FAMILY_SEEN.clear()
+    probe_zip_exec(ctx)
     root_table(ctx)
     ntrees = ntrees or ctx.pick(36, 300)
     per_tree = per_tree or ctx.pick(12, 40)
@@ -594,6 +646,7 @@ def replay(ctx, case):
         from breezy.export import get_root_name
         m = ctx.model(["root %s" % hx(case["dest"])])[0]
         return dict(case=case, impl=hx(get_root_name(case["dest"])), model=m)
+    probe_zip_exec(ctx)
     seed = tuple(case["tree"])
     T = make_T(ctx, seed[1], seed)
     try:
